@@ -675,6 +675,70 @@ fn check_e2e(c: &E2eCase) -> V {
     }
 }
 
+// ---------------------------------------------------------------------------
+// (c) end to end: the layers of skip_document_code (no command-line flag exists for it)
+
+#[derive(Clone, Debug, Serialize, Deserialize)]
+pub struct SkipCase {
+    /// front-matter `defaults.skip_document_code`
+    pub def: Option<u8>,
+    /// inline `{skip_document_code: ..}` of the test case
+    pub inl: Option<u8>,
+    /// the command exits with: 0 = the inline code (or 80), 1 = the document code (or 80), 2 = 80, 3 = 3
+    pub exit_sel: u8,
+}
+
+fn skip_strategy() -> BoxedStrategy<SkipCase> {
+    (
+        proptest::option::of(prop_oneof![Just(42u8), Just(43u8), Just(80u8)]),
+        proptest::option::of(prop_oneof![Just(42u8), Just(43u8), Just(80u8)]),
+        0u8..4,
+    )
+        .prop_map(|(def, inl, exit_sel)| SkipCase { def, inl, exit_sel })
+        .boxed()
+}
+
+fn check_skip(c: &SkipCase) -> V {
+    let dir = match CaseDir::new("C16") {
+        Ok(d) => d,
+        Err(e) => inconclusive(&format!("scratch dir: {e}")),
+    };
+    let exit = match c.exit_sel {
+        0 => c.inl.unwrap_or(80),
+        1 => c.def.unwrap_or(80),
+        2 => 80,
+        _ => 3,
+    };
+    // first layer that sets it: inline, document defaults, format default
+    let in_force = c.inl.or(c.def).unwrap_or(80);
+    let mut doc = String::new();
+    if let Some(d) = c.def {
+        doc.push_str(&format!("---\ndefaults:\n  skip_document_code: {d}\n---\n\n"));
+    }
+    let cfg = c.inl.map(|i| format!(" {{skip_document_code: {i}}}")).unwrap_or_default();
+    doc.push_str(&format!("# skip code layers\n\n```scrut{cfg}\n$ (exit {exit})\n[{exit}]\n```\n"));
+    let path = dir.path().join("doc.md");
+    std::fs::write(&path, &doc).ok();
+    let run = match run_scrut(&dir, &["test", "-r", "json", "--no-color", path.to_str().unwrap()], 60) {
+        Ok(r) => r,
+        Err(e) => inconclusive(&format!("scrut did not run: {e}")),
+    };
+    let want = if exit == in_force { "skipped" } else { "success" };
+    let v = V::pass()
+        .nt(c.def.is_some() && c.inl.is_some() && c.def != c.inl)
+        .label_if(c.def.is_some() && c.inl.is_some() && c.def != c.inl, "document_and_inline_skip_code_differ")
+        .label(if want == "skipped" { "exits_with_the_code_in_force" } else { "exits_with_another_code" });
+    let kinds = json_result_kinds(&run.stdout).unwrap_or_default();
+    if run.code == Some(0) && kinds == vec![want.to_string()] {
+        v
+    } else {
+        V::fail(format!(
+            "skip code in force is {in_force} (inline {:?}, document {:?}), the command exits with {exit}: expected the test case to be reported as {want}, got {:?} (exit {:?})\ndocument:\n{doc}",
+            c.inl, c.def, kinds, run.code
+        ))
+    }
+}
+
 pub fn property() -> Property {
     Property {
         id: "C16",
@@ -720,6 +784,15 @@ pub fn property() -> Property {
                 max_workers: 12,
                 strategy: Box::new(|_| e2e_strategy()),
                 check: Box::new(check_e2e),
+            }),
+            Box::new(PropPart::<SkipCase> {
+                name: "skip_code_layers",
+                rule: "Markdown document with skip_document_code in {unset, 42, 43, 80} in the front-matter defaults and inline, a command that exits with the inline / document / default code or 3 and expects that code: skipped iff it exits with the code of the highest layer that sets it. Non-trivial: both layers set different codes",
+                quick: 300,
+                thorough: 3_000,
+                max_workers: 12,
+                strategy: Box::new(|_| skip_strategy()),
+                check: Box::new(check_skip),
             }),
         ],
     }
